@@ -20,7 +20,7 @@ import spikeglx  # noqa: E402
 PROP = "C11"
 LEVEL = "fault_enumeration"
 TIERS = {
-    "quick": {"runs": 6000, "budget_s": 240, "det_pairs": 6},
+    "quick": {"runs": 20000, "budget_s": 240, "det_pairs": 6},
     "thorough": {"runs": 400000, "budget_s": 900, "det_pairs": 12},
 }
 RUN_TIMEOUT = 120
